@@ -11,7 +11,8 @@ class ViewModule:
         self.lines = []
         self.structs = []          # names of top-level candidate structs (no parameters)
         # by-construction oracle, independent of the compiler: unconditional scalar fields of Top at static
-        # offsets as (name, offset, size, kind, byte order that the language rules make effective)
+        # offsets as (name, offset, size, kind, byte order that the language rules make effective, existence
+        # condition text or None)
         self.oracle = []
         self.build()
 
@@ -86,7 +87,7 @@ class ViewModule:
         ints = []          # (name, max)  usable in expressions
         off = 0
         L.append("  0 [+1]  UInt  tag")
-        self.oracle.append(("tag", 0, 1, "UInt", self.default_order))
+        self.oracle.append(("tag", 0, 1, "UInt", self.default_order, None))
         ints.append("tag")
         if self.top_param is not None:
             ints.append("tp")
@@ -123,10 +124,12 @@ class ViewModule:
             if cond:
                 L.append("  if %s:" % cond)
                 L.append("    %s [+%d]  %s  %s%s" % (pos, size, kind, name, bo.replace("\n    ", "\n      ")))
+                if dynamic_off is None:
+                    self.oracle.append((name, off, size, kind, order, cond))
             else:
                 L.append("  %s [+%d]  %s  %s%s" % (pos, size, kind, name, bo))
                 if dynamic_off is None:
-                    self.oracle.append((name, off, size, kind, order))
+                    self.oracle.append((name, off, size, kind, order, None))
                 if size <= 2 and kind == "UInt":
                     ints.append(name)
             names.append(name)
